@@ -2,6 +2,7 @@
    fails to compile if Props/C04.v is weakened, renamed or given other hypotheses. *)
 From Coq Require Import SpecFloat.
 Require Import Base Value Float NumberOps ListOps SerdeModel SerdeProofs.
+Require Import PrintOptions Printer ParseOptions Reader Parser TextProofs RoundtripProofs.
 Require Import Lexpr.Props.C04.
 
 Check (C04_value_roundtrip :
@@ -13,6 +14,16 @@ Check (C04_injective :
   forall (cast_f32 : f64 -> f64) (is_f32 : f64 -> bool),
   (forall f, is_f32 f = true -> cast_f32 f = f) ->
   forall t, wf_ty t -> forall d1 d2 v, ser is_f32 t d1 = Some v -> ser is_f32 t d2 = Some v -> d1 = d2).
+
+Check (C04_text_roundtrip_partial :
+  forall (cast_f32 : f64 -> f64) (is_f32 : f64 -> bool),
+  (forall f, is_f32 f = true -> cast_f32 f = f) ->
+  forall ryu alpha fast std_parse k t, wf_ty t -> forall d v, ser is_f32 t d = Some v ->
+  rt_ok alpha v -> (rdepth v <= 127)%nat ->
+  match from_trait default_ro alpha fast std_parse k (bytes_events (print0 ryu v)) with
+  | POk v' => de cast_f32 t v' = SOk d
+  | PErr _ => False
+  end).
 
 Check (C04_nonvacuous :
   let t := TyStruct [([110], TyString); ([97], TyOption (TyInt false 8));
